@@ -136,3 +136,121 @@ def _tp_rel(S, i, cls):
 
 for _c in ORDER_OF:
     make_time_contracts(_c)
+
+
+# ------------------------------------------------------------------------------------------------ cubic: tridiagonal system (C02) and its cached factors
+def dims(S):
+    """coordinates this harness talks about: all, or the single focused one (hypotheses about the other coordinates are
+    omitted, which only weakens what is assumed; the code of every coordinate is still executed)"""
+    f = S.gen.opt.get('focus')
+    return [f] if f is not None else list(range(S.cfg['DIM']))
+
+
+def cubic_h(S, k):
+    return tp_field(S, k, 'h')
+
+
+def cubic_den_mid(S, k):
+    cp = S.v('cached_c_prime_')
+    h = lambda j: cubic_h(S, j)
+    return 2 * (h(k - 1) + h(k)) - h(k - 1) * cp.at(k - 1, 0)
+
+
+def cubic_factor_mid(S, k):
+    """A(k), 0 < k < n: cached_inv_denoms_[k] is the reciprocal of the pivot; c'[k] = h_k / pivot lies in (0, 1/2]"""
+    cp = S.v('cached_c_prime_')
+    inv = S.v('cached_inv_denoms_')
+    return [(inv.at(k, 0) * cubic_den_mid(S, k)).eq(1), inv.at(k, 0) > 0,
+            cp.at(k, 0).eq(cubic_h(S, k) * inv.at(k, 0)), cp.at(k, 0) > 0, 2 * cp.at(k, 0) <= 1]
+
+
+def cubic_factor_first(S):
+    cp = S.v('cached_c_prime_')
+    inv = S.v('cached_inv_denoms_')
+    h0 = cubic_h(S, 0)
+    return conj([(inv.at(0, 0) * 2 * h0).eq(1), inv.at(0, 0) > 0, cp.at(0, 0).eq(h0 * inv.at(0, 0)), cp.at(0, 0) > 0, 2 * cp.at(0, 0) <= 1])
+
+
+def cubic_factor_last(S, n):
+    cp = S.v('cached_c_prime_')
+    inv = S.v('cached_inv_denoms_')
+    hl = cubic_h(S, n - 1)
+    return conj([(inv.at(n, 0) * (2 * hl - hl * cp.at(n - 1, 0))).eq(1), inv.at(n, 0) > 0])
+
+
+def cubic_rows(S, X, R, n, d):
+    """A x = r for the clamped cubic second-derivative system: first row, interior rows (quantified), last row"""
+    h = lambda j: cubic_h(S, j)
+    first = (2 * h(0) * X.at(0, d) + h(0) * X.at(1, d)).eq(R.at(0, d))
+    last = (h(n - 1) * X.at(n - 1, d) + 2 * h(n - 1) * X.at(n, d)).eq(R.at(n, d))
+    mid = S.forall(1, n, lambda m: (h(m - 1) * X.at(m - 1, d) + 2 * (h(m - 1) + h(m)) * X.at(m, d) + h(m) * X.at(m + 1, d)).eq(R.at(m, d)))
+    return first, mid, last
+
+
+def h_positive(S):
+    return [S.v('time_powers_').size().eq(S.num_segments_), S.forall(0, S.num_segments_, lambda i: cubic_h(S, i) > 0)]
+
+
+@register
+class CubicComputeLUAndSolve(Contract):
+    key = 'CubicSplineND.computeLUAndSolve'
+
+    def spec(self, S):
+        n = S.num_segments_
+        M = S.v('M')
+        R = S.old.get('M')
+        cp = S.v('cached_c_prime_')
+        inv = S.v('cached_inv_denoms_')
+        DS = dims(S)
+        S.requires((n >= 1) & (n <= NMAX), 'at_least_one_segment')
+        for p in h_positive(S):
+            S.requires(p, 'positive_durations')
+        S.requires(M.R.eq(n + 1), 'rhs_rows')
+        S.terms(0, 1, n - 1, n, S.sk(0) - 1, S.sk(0) + 1)
+        S.assigns(M, cp, inv)
+        S.ensures(M.R.eq(n + 1) & cp.R.eq(n) & inv.R.eq(n + 1), 'sizes')
+        S.ensures(cubic_factor_first(S), 'cached_factor_first')
+        S.ensures(S.forall(1, n, lambda k: cubic_factor_mid(S, k)), 'cached_factors')
+        S.ensures(cubic_factor_last(S, n), 'cached_factor_last')
+        for d in DS:
+            first, mid, last = cubic_rows(S, M, R, n, d)
+            S.ensures(first, 'first_row_%d' % d)
+            S.ensures(mid, 'interior_rows_%d' % d)
+            S.ensures(last, 'last_row_%d' % d)
+        # ghost: the right-hand side after the forward sweep
+        Mp = dict((d, S.spec_array('Mp%d' % d)) for d in DS)
+        Mpv = lambda k, d: Mp[d][0](k)
+        Mcur = lambda k, d: M.at(k, d)
+        h = lambda j: cubic_h(S, j)
+
+        def fw0(Mx, d):
+            return Mx(0, d).eq(R.at(0, d) * inv.at(0, 0))
+
+        def fw(Mx, k, d):
+            return Mx(k, d).eq((R.at(k, d) - h(k - 1) * Mx(k - 1, d)) * inv.at(k, 0))
+        S.loop(0, inv=lambda L: [
+            ('range', (L.i >= 1) & (L.i <= n)),
+            ('sizes', M.R.eq(n + 1) & cp.R.eq(n) & inv.R.eq(n + 1)),
+            ('factor0', cubic_factor_first(S)),
+            ('factors', S.forall(1, L.i, lambda k: cubic_factor_mid(S, k))),
+            ('eliminated0', conj([fw0(Mcur, d) for d in DS])),
+            ('eliminated', S.forall(1, L.i, lambda k: [fw(Mcur, k, d) for d in DS])),
+            ('untouched', S.forall(L.i, n + 1, lambda k: [M.at(k, d).eq(R.at(k, d)) for d in DS])),
+        ], variant=lambda L: n - L.i, terms=lambda L: [L.i - 1, L.i, L.i + 1])
+
+        def snapshot(G):
+            for d in DS:
+                G.copy_array(Mp[d][1], M.col(d))
+        S.ghost('loop1.before', snapshot)
+        S.loop(1, inv=lambda L: [
+            ('range', (L.i >= -1) & (L.i <= n - 1)),
+            ('sizes', M.R.eq(n + 1) & cp.R.eq(n) & inv.R.eq(n + 1)),
+            ('factor0', cubic_factor_first(S)),
+            ('factors', S.forall(1, n, lambda k: cubic_factor_mid(S, k))),
+            ('factorn', cubic_factor_last(S, n)),
+            ('forward0', conj([fw0(Mpv, d) for d in DS])),
+            ('forward', S.forall(1, n + 1, lambda k: [fw(Mpv, k, d) for d in DS])),
+            ('solved_last', conj([M.at(n, d).eq(Mpv(n, d)) for d in DS])),
+            ('solved', S.forall(L.i + 1, n, lambda k: [M.at(k, d).eq(Mpv(k, d) - cp.at(k, 0) * M.at(k + 1, d)) for d in DS])),
+            ('pending', S.forall(0, L.i + 1, lambda k: [M.at(k, d).eq(Mpv(k, d)) for d in DS])),
+        ], variant=lambda L: L.i + 1, terms=lambda L: [L.i, L.i + 1, L.i + 2])
